@@ -239,6 +239,8 @@ def run_property(pid: str, instances: List[Instance], meta: dict, tier: str, see
     _INSTANCES = sorted(instances, key=lambda i: -i.cost)
     _CFG = {"seed": seed, "max_validate": 64 if tier == "quick" else 512,
             "time_budget": float(os.environ.get("SYMTDF_INSTANCE_BUDGET_S", "240" if tier == "quick" else "1500"))}
+    if "SYMTDF_PATH_BUDGET_S" not in os.environ:
+        E.PATH_BUDGET_S = 150.0 if tier == "quick" else 900.0
     os.makedirs(os.path.join(OUT, "replays", pid), exist_ok=True)
     # Global early stop: once enough instances have produced replayed violations, or the
     # check's overall time budget is spent, the remaining instances are not run (they are
